@@ -97,6 +97,62 @@ theorem xlsKind_lookup (kind : SheetType) (dt : Nat) (h : xlsKindCode kind = som
     dt < 256 ∧ Gen.xlsKindTable.lookup dt = some kind := by
   cases kind <;> simp [xlsKindCode, codeOf, Gen.xlsKindTable] at h <;> subst h <;> decide
 
+/-! ## UTF-16 -/
+
+theorem decodeUtf16_cons_bmp (u : Nat) (l : List Nat) (h1 : Biff.isHigh u = false) (h2 : Biff.isLow u = false) :
+    Biff.decodeUtf16 (u :: l) = u :: Biff.decodeUtf16 l := by
+  cases l with
+  | nil => simp [Biff.decodeUtf16, h1, h2]
+  | cons v rest => simp [Biff.decodeUtf16, h1, h2]
+
+theorem decodeUtf16_cons_pair (hi lo : Nat) (l : List Nat) (h1 : Biff.isHigh hi = true) (h2 : Biff.isLow lo = true) :
+    Biff.decodeUtf16 (hi :: lo :: l) = (0x10000 + (hi - 0xD800) * 0x400 + (lo - 0xDC00)) :: Biff.decodeUtf16 l := by
+  simp [Biff.decodeUtf16, h1, h2]
+
+/-- **UTF-16 round trip**: decoding the UTF-16 encoding of a text of Unicode scalar values gives the text back -/
+theorem decodeUtf16_utf16 (t : Text) (h : ∀ c ∈ t, isScalar c) : Biff.decodeUtf16 (utf16 t) = t := by
+  induction t with
+  | nil => rfl
+  | cons c cs ih =>
+    have hc := h c (by simp)
+    have ih := ih (fun x hx => h x (by simp [hx]))
+    have hcons : utf16 (c :: cs) = unitsOfScalar c ++ utf16 cs := by simp [utf16]
+    rw [hcons]
+    unfold unitsOfScalar
+    by_cases hb : c < 0x10000
+    · have h1 : Biff.isHigh c = false := by
+        unfold isScalar at hc; simp [Biff.isHigh]; omega
+      have h2 : Biff.isLow c = false := by
+        unfold isScalar at hc; simp [Biff.isLow]; omega
+      simp only [hb, if_true, List.cons_append, List.nil_append]
+      rw [decodeUtf16_cons_bmp c _ h1 h2, ih]
+    · have hlt : c < 0x110000 := by unfold isScalar at hc; omega
+      have h1 : Biff.isHigh (0xD800 + (c - 0x10000) / 0x400) = true := by
+        simp [Biff.isHigh]; omega
+      have h2 : Biff.isLow (0xDC00 + (c - 0x10000) % 0x400) = true := by
+        simp [Biff.isLow]; omega
+      simp only [hb, if_false, List.cons_append, List.nil_append]
+      rw [decodeUtf16_cons_pair _ _ _ h1 h2, ih]
+      have hv : 0x10000 + (0xD800 + (c - 0x10000) / 0x400 - 0xD800) * 0x400 + (0xDC00 + (c - 0x10000) % 0x400 - 0xDC00) = c := by
+        omega
+      rw [hv]
+
+theorem utf16_lt (t : Text) (h : ∀ c ∈ t, isScalar c) : ∀ u ∈ utf16 t, u < 65536 := by
+  intro u hu
+  unfold utf16 at hu
+  obtain ⟨c, hc, hcu⟩ := List.mem_flatMap.mp hu
+  have hs := h c hc
+  unfold isScalar at hs
+  unfold unitsOfScalar at hcu
+  by_cases hb : c < 0x10000
+  · simp [hb] at hcu; omega
+  · simp [hb] at hcu; omega
+
+theorem filter_ne_zero (t : Text) (h : ∀ c ∈ t, c ≠ 0) : t.filter (· != 0) = t := by
+  apply List.filter_eq_self.mpr
+  intro c hc
+  simp [h c hc]
+
 /-! ## xls BoundSheet8 -/
 
 theorem parseSheetMetadata_encode (off : Nat) (hoff : off < 4294967296) (vis : SheetVisible) (reserved : Nat)
